@@ -103,7 +103,8 @@ Fixpoint coh (pbs : list nat) (pdv : option dev) (t : tree) : bool :=
 
 Definition coh_ents (bs : list nat) (dv : option dev) (es : ents) : bool := forallb (fun kv => coh bs dv (snd kv)) es.
 
-Definition coherentb (t : tree) : bool := is_node t && coh [] None t.
+(* the root has no container: empty context *)
+Definition coherentb (t : tree) : bool := coh [] None t.
 Definition Coherent (t : tree) : Prop := coherentb t = true.
 
 (* hollow entries: nested nodes that hold no tensor (an empty TensorDict, a NonTensorData).  They accept any batch size,
